@@ -107,6 +107,14 @@ pub fn gen(rng: &mut Rng, tier: Tier) -> Scn {
                 _ => ReadSched::Random { seed: rng.next_u64(), max: *rng.pick(&[10usize, 100, 5000]) },
             };
             *variants.last_mut().unwrap() = SourceSpec::PreEncodedStream(sched);
+        } else if rng.chance(0.06) {
+            // a transient I/O error: one read of the stream fails once with a non-retryable kind, in the middle of short
+            // reads. The transfer may be cut, the object may even be refused - but no packet ever carries other bytes
+            // than the buffer run's packet with the same (SBN, ESI)
+            if rng.chance(0.7) {
+                o.md5 = false;
+            }
+            *variants.last_mut().unwrap() = SourceSpec::Stream(ReadSched::FailOnce { chunk: *rng.pick(&[1usize, 7, 64, 300, 4096]), nth: rng.range(1, 60) as u32, kind: rng.below(4) as u8 });
         }
         objects.push(o);
         ops.push(TimedOp { when: When::AtUs(0), op: Op::Add(i) });
@@ -157,6 +165,40 @@ pub fn run(scn: &Scn, ctx: &Ctx, scratch: &Path) {
     }
     if short_reads {
         ctx.borrow_mut().count_fault("short-read");
+    }
+    if scn.variants.iter().any(|v| matches!(v, SourceSpec::Stream(ReadSched::FailOnce { .. }))) {
+        // I/O fault: equality is relaxed deliberately and narrowly - anything may be missing, nothing may be wrong
+        ctx.borrow_mut().count_fault("read-fails-once");
+        let mut want: std::collections::BTreeMap<(usize, u32, u32), &crate::wire::Decoded> = Default::default();
+        for p in a.pkts.iter().filter(|p| p.dec.toi != 0) {
+            if let Some(obj) = a.obj_toi.iter().position(|t| *t == Some(p.dec.toi)) {
+                want.entry((obj, p.dec.sbn, p.dec.esi)).or_insert(&p.dec);
+            }
+        }
+        for q in b.pkts.iter().filter(|p| p.dec.toi != 0) {
+            let obj = match b.obj_toi.iter().position(|t| *t == Some(q.dec.toi)) {
+                Some(o) => o,
+                None => continue,
+            };
+            match want.get(&(obj, q.dec.sbn, q.dec.esi)) {
+                Some(w) if w.payload == q.dec.payload => {}
+                Some(w) => {
+                    violate(
+                        ctx,
+                        "C20/wrong-bytes-after-read-error",
+                        "-",
+                        format!(
+                            "object {} symbol ({}, {}): after a read of the stream failed once ({:?}) the packet carries {} bytes that differ from the buffer run's packet with the same ids ({} bytes)",
+                            obj, q.dec.sbn, q.dec.esi, scn.variants[obj.min(scn.variants.len() - 1)], q.dec.payload.len(), w.payload.len()
+                        ),
+                    );
+                    return;
+                }
+                // (the buffer run may not have reached this symbol: operations tied to packet counts fall elsewhere)
+                None => ctx.borrow_mut().note("read-error:symbol-not-in-buffer-run"),
+            }
+        }
+        return;
     }
     // the two runs must agree operation by operation and packet by packet
     for (x, y) in a.ops.iter().zip(b.ops.iter()) {
